@@ -392,6 +392,8 @@ def check_property(pid, tier, seed):
              for _k, r in real if r.ok and (r.time_s > 2.0 or len(getattr(r, "attempts", None) or []) > 1)],
             key=lambda d: -d["time_s"])[:25],
         "confirmed_by_two_configs": sum(1 for _k, r in real if r.ok and len(getattr(r, "confirmed_by", None) or []) >= 2),
+        "discharged_on_risky_pattern_files": sum(1 for _k, r in real if r.ok and getattr(r, "risky_pattern", False)),
+        "solver_disagreements": [r.name for _k, r in real if getattr(r, "disagree", None)],
         "solver_time_s": round(solver_time, 2),
         "guards": {"canaries_and_covers": len(guards), "groups": len(groups), "failed_to_prove_as_required": sum(1 for rs in groups.values() if any(r.ok for r in rs)), "canary_sat": sum(1 for _, r in guards if r.status == "refuted")},
         "runtime_crosscheck": {"label": "bounded", **rt_total},
@@ -404,6 +406,8 @@ def check_property(pid, tier, seed):
         "explanation": extra_res.get("explanation", "") or f"contract-based deductive verification: {n_dis}/{n_ob} obligations discharged from the current /repo source; see functions_under_contract and trusted_base",
         "undecided": [u for u in undecided] + [r.name for r in undecided_obs],
     }
+    cov_confirmed = sum(1 for _k, r in real if r.ok and len(getattr(r, "confirmed_by", None) or []) >= 2)
+    cov_discharged = sum(1 for _k, r in real if r.ok)
     ev = {
         "property_id": pid,
         "tier": tier,
@@ -414,6 +418,11 @@ def check_property(pid, tier, seed):
             "floats are treated as mathematical reals",
             "termination is not proved (partial correctness)",
             "spec functions terminate (structural recursion on an int argument)",
+            "SMT solver soundness: z3 4.8.12 and z3 5.1.0 answered `unsat` on satisfiable files of this engine's shape (Seq-sorted datatype fields / "
+            "seq.extract under quantifiers; regression files in selftest/solver_regress). Mitigations in force: after an `unsat` the other solver "
+            "configurations are asked and a `sat` from any of them blocks the discharge (verdict disagree = undecided); on files with seq.extract "
+            "under a quantifier a z3 `unsat` needs a second opinion; every contract carries canaries that must fail to prove. "
+            f"{cov_confirmed} of {cov_discharged} deductive obligations of this run have two or more independent `unsat` answers; the others rest on one solver configuration",
         ],
         "wall_s": round(time.time() - t0, 2),
         "violations": len(violations),
